@@ -13,6 +13,10 @@
 //	     the REAL getSortedProducers / getSortedProducersDposV2 on a state holding these producers, called
 //	     reps times (fresh map, different insertion order each time).  Output: the node keys in order, or
 //	     "unstable" when two repetitions disagree.
+//	wrand <seed|none> <normal> <cands> <period> <height> <unclaimed> <lastH> <lastOwner|-> <iso> <env> <blk> <tip> <votes:nodekey:ownerkey>...
+//	     the REAL getSortedProducersWithRandom (the producer order handed to the next-arbiter computation) on a
+//	     state holding these producers, three times on freshly built maps, with the environment acting at the
+//	     hook point and the chain tip as given.  Output: owner keys in order + the last-random bookkeeping.
 //	randv2 <seed> <normal> <crc> <unclaimed> <draws> <env> <blk> <rights:nodekey:ownerkey>...
 //	     the REAL getRandomDposV2Producers with the environment acting on the process-global generator at the
 //	     hook point between seeding and the draws; draws = what a fresh private source seeded from the block
@@ -283,8 +287,107 @@ func execRandV2(t []string) string {
 	return joinOr(res, ",", "-")
 }
 
+// what getSortedProducersWithRandom must return: the sorted producers with the candidate — the previous one while
+// it is still valid, else the one an undisturbed private generator seeded from block height-1 draws — on the last
+// normal seat; and the bookkeeping afterwards
+func wantWithRandom(t []string) (string, bool) {
+	normal, cands, period, height, unclaimed := atoi(t[2]), atoi(t[3]), uint32(atoi(t[4])), uint32(atoi(t[5])), atoi(t[6])
+	lastH, lastO := uint32(atoi(t[7])), t[8]
+	if lastO == "-" {
+		lastO = ""
+	}
+	sorted := wantOrder(parseProds(t[13:]))
+	seat := unclaimed + normal - 1
+	move := func(i int) []string {
+		var res []string
+		for _, p := range sorted[:seat] {
+			res = append(res, hex.EncodeToString(p.owner))
+		}
+		res = append(res, hex.EncodeToString(sorted[i].owner))
+		for _, p := range sorted[seat:i] {
+			res = append(res, hex.EncodeToString(p.owner))
+		}
+		for _, p := range sorted[i+1:] {
+			res = append(res, hex.EncodeToString(p.owner))
+		}
+		return res
+	}
+	if lastH != 0 && height-lastH < period {
+		for i, p := range sorted {
+			if hex.EncodeToString(p.owner) == lastO {
+				if i < seat {
+					break
+				}
+				return fmt.Sprintf("%s last=%d:%s", strings.Join(move(i), ","), lastH, joinOr([]string{lastO}, "", "-")), true
+			}
+		}
+	}
+	if t[11] == "none" {
+		return "err noblock", true
+	}
+	n := window(normal, cands, unclaimed, len(sorted))
+	if n <= 0 {
+		return "err notenough", true
+	}
+	idx := rand.New(rand.NewSource(seedOf(block(t[11])))).Intn(n)
+	return fmt.Sprintf("%s last=%d:%s", strings.Join(move(seat+idx), ","), height, hex.EncodeToString(sorted[seat+idx].owner)), true
+}
+
+func execWrand(t []string) string {
+	normal, cands, period, height, unclaimed := atoi(t[2]), atoi(t[3]), uint32(atoi(t[4])), uint32(atoi(t[5])), atoi(t[6])
+	lastH, lastO := uint32(atoi(t[7])), t[8]
+	if lastO == "-" {
+		lastO = ""
+	}
+	b := block(t[11])
+	ps := parseProds(t[13:])
+	if b != nil {
+		s := seedOf(b)
+		if strconv.FormatInt(s, 10) != t[1] {
+			return "oracle-mismatch seed " + strconv.FormatInt(s, 10)
+		}
+		iso := 0
+		if n := window(normal, cands, unclaimed, len(ps)); n > 0 {
+			iso = rand.New(rand.NewSource(s)).Intn(n)
+		}
+		if strconv.Itoa(iso) != t[9] {
+			return "oracle-mismatch iso " + strconv.Itoa(iso)
+		}
+	}
+	env := t[10]
+	state.VerifInterleave = func() { runEnv(env) }
+	defer func() { state.VerifInterleave = nil }()
+	best, other := tipOf(t, 12)
+	var first string
+	for rep := 0; rep < 3; rep++ { // fresh state (fresh maps) every time
+		res, lh, lo, err := state.VerifSortedProducersWithRandom(b, normal, cands, period, height, unclaimed, toVerif(ps, rep), lastH, lastO, best, other)
+		var cur string
+		if err != nil {
+			switch err.Error() {
+			case "block is not found":
+				cur = "err noblock"
+			case "producers is not enough":
+				cur = "err notenough"
+			default:
+				cur = "err other"
+			}
+		} else {
+			cur = fmt.Sprintf("%s last=%d:%s", strings.Join(res, ","), lh, joinOr([]string{lo}, "", "-"))
+		}
+		if rep == 0 {
+			first = cur
+		} else if cur != first {
+			lastUnstable = first + " | " + cur
+			return "unstable"
+		}
+	}
+	return first
+}
+
 func exec(t []string) string {
 	switch t[0] {
+	case "wrand":
+		return execWrand(t)
 	case "sort":
 		return execSort(t)
 	case "randv2":
@@ -350,6 +453,22 @@ func exec(t []string) string {
 // undisturbed private generator seeded from the block hash draws first.
 func oracle(t []string, out string) *hx.Violation {
 	switch t[0] {
+	case "wrand":
+		if strings.HasPrefix(out, "oracle-mismatch") {
+			return nil
+		}
+		if out == "unstable" {
+			return &hx.Violation{Kind: "producer-order-depends-on-map-order", Detail: "getSortedProducersWithRandom: " + lastUnstable}
+		}
+		if want, ok := wantWithRandom(t); ok && out != want {
+			kind := "next-producers-depend-on-schedule"
+			if t[10] == "-" {
+				kind = "next-producers-not-a-function-of-chain-data"
+			}
+			return &hx.Violation{Kind: kind,
+				Detail: fmt.Sprintf("getSortedProducersWithRandom (environment %s, %s) returned %s; chain data determine %s", t[10], t[12], out, want)}
+		}
+		return nil
 	case "sort":
 		if out == "unstable" {
 			return &hx.Violation{Kind: "producer-order-depends-on-map-order",
@@ -473,6 +592,40 @@ func genProds(g *hx.Gen, n int, withOwner bool) []string {
 
 func genMore(g *hx.Gen) {
 	envs := []string{"-", "d7", "d1", "d1000000", "s1", "s42,d3", "d3,d5,d9", "d2,s7,d2"}
+	// getSortedProducersWithRandom: the order handed to the next-arbiter computation
+	for i := 0; i < g.N(800, 15000); i++ {
+		ps := genProds(g, 4+g.R.Intn(12), true)
+		normal, cands, unclaimed := 1+g.R.Intn(4), g.R.Pick(0, 1, 3, 8), g.R.Intn(2)
+		period, height := g.R.Pick(1, 2, 5, 36), 1000
+		lastH, lastO := 0, "-"
+		if g.R.Chance(60) {
+			lastH = height - g.R.Intn(8)
+			if g.R.Chance(10) {
+				lastH = height + 1 + g.R.Intn(3) // uint32 wrap-around of height-last
+			}
+			pp := parseProds(ps)
+			lastO = hex.EncodeToString(pp[g.R.Intn(len(pp))].owner)
+			if g.R.Chance(10) {
+				lastO = "03ffffff" // not a producer any more
+			}
+		}
+		blk := fmt.Sprintf("%d:%d:%d:%d:%d", g.R.Intn(3), g.R.U64()&0xffffffff, 0x207fffff, g.R.U64()&0xffffffff, g.R.Intn(3000000))
+		seed, iso := "none", 0
+		if g.R.Chance(3) {
+			blk = "none"
+		} else {
+			s := seedOf(block(blk))
+			seed = strconv.FormatInt(s, 10)
+			if n := window(normal, cands, unclaimed, len(ps)); n > 0 {
+				iso = rand.New(rand.NewSource(s)).Intn(n)
+			}
+		}
+		tip := "tip=1000:0:1:1:1:1"
+		if g.R.Chance(40) {
+			tip = fmt.Sprintf("tip=%d:%d:%d:%d:%d:%d", 1001+g.R.Intn(500), g.R.Intn(3), g.R.U64()&0xffffffff, 0x207fffff, g.R.U64()&0xffffffff, g.R.Intn(3000000))
+		}
+		g.Emit("wrand %s %d %d %d %d %d %d %s %d %s %s %s %s", seed, normal, cands, period, height, unclaimed, lastH, lastO, iso, envs[g.R.Intn(len(envs))], blk, tip, strings.Join(ps, " "))
+	}
 	for i := 0; i < g.N(600, 10000); i++ {
 		kind := "v1"
 		if g.R.Bool() {
@@ -523,6 +676,8 @@ func nontrivial(t []string, out string) bool {
 	switch t[0] {
 	case "sort":
 		return true
+	case "wrand":
+		return !strings.HasPrefix(out, "err")
 	case "randv2":
 		return t[5] != "-" && t[6] != "-" // keys were drawn while the environment acted
 	}
